@@ -60,6 +60,9 @@ func propC01(c *Ctx, r *Report) {
 	c.runResetScopes(r, spirvResetScopes)
 	r.Clauses = append(r.Clauses, enumMapClause)
 	c.runEnumTables(r, "spirv")
+	r.Clauses = append(r.Clauses, resolutionClause)
+	c.runResolutionSiblings(r, "resolution.siblings", inPkgs("spirv", "ir"), nil)
+	r.floor("resolution.siblings", 4)
 	r.Clauses = append(r.Clauses, colVecClause)
 	c.runColVec(r, "shape.colvec", inPkgs("spirv", "ir"))
 	r.floor("shape.colvec", 5)
